@@ -96,6 +96,11 @@ def refsEngine : Engine := fun inp obs =>
           | ["ok", _, c] => (splitList c ",").map (fun (x : String) => (x.take 1).toString)
           | x => x
         let tag := if walks obs != walks s then "C06,C07" else "C07"
+        -- the reading of gitconfig (C15) is in play when the listing holds the same key several
+        -- times (order and multiplicity of entries) or when the set of groups itself differs
+        let keys := cfg.map (·.1)
+        let groupsOf : List String → List String := fun l => match l with | ["ok", g, _] => [g] | x => x
+        let tag := if keys.eraseDups.length != keys.length || groupsOf obs != groupsOf s then tag ++ ",C15" else tag
         .viol tag s!"observed {obs.take 1} {obs.drop 2}; specification {s.take 1} {s.drop 2}"
       else if m != obs then .diff (joinTab m) "model differs from implementation"
       else if obs == ["err"] then .ok "trivial"
